@@ -58,14 +58,20 @@ def local_simpl(v):
         return out
     if isinstance(v, str):
         if v:
-            out += ["", v[:len(v) // 2], v[len(v) // 2:], v[1:], v[:-1]]
+            out += ["", v[:len(v) // 2], v[len(v) // 2:]] + ([v[1:], v[:-1]] if len(v) <= 400 else [])
         return out
     if isinstance(v, list):
+        if len(v) > 40:                                 # big list: halve, do not enumerate per-element edits
+            h = len(v) // 2
+            return [None, v[0], v[-1], [], v[:h], v[h:], v[:len(v) - len(v) // 4], v[len(v) // 4:], v[:40]]
         for x in v: out.append(x)                       # hoist an element
         if v: out.append([])
         for i in range(len(v)): out.append(v[:i] + v[i + 1:])
         return out
     if isinstance(v, dict):
+        if len(v) > 40:
+            ks = sorted(v)
+            return [None, {}, {k: v[k] for k in ks[:len(ks) // 2]}, {k: v[k] for k in ks[len(ks) // 2:]}]
         for k, x in v.items():
             out.append(x)                               # hoist a member
             if isinstance(x, list):
@@ -79,8 +85,9 @@ def simplifications(v):
     """every value obtained from v by ONE local simplification at ONE position (any depth)"""
     out = list(local_simpl(v))
     if isinstance(v, list):
-        for i, x in enumerate(v):
-            for s in simplifications(x):
+        idxs = range(len(v)) if len(v) <= 40 else [0, 1, len(v) - 1]
+        for i in idxs:
+            for s in simplifications(v[i]):
                 out.append(v[:i] + [s] + v[i + 1:])
     elif isinstance(v, dict):
         for k, x in v.items():
@@ -121,7 +128,9 @@ class Runner:
         except Exception:
             return line
         cur = (cmd, args)
+        t_end = time.time() + (45 if len(line) < 200000 else 15)
         for _ in range(rounds):
+            if time.time() > t_end: break
             cands = []
             for i, a in enumerate(cur[1]):
                 for s in simplifications(a):
@@ -310,12 +319,14 @@ class Explore:
         dis, ri, rm = self.runner.disagreements(lines, profile)
         self.account(lines, ri)
         seen = set()
+        t_stop = time.time() + 150            # shrinking budget per stream and profile
         for l, a, m in dis[:25]:
-            # a hang costs a full timeout per candidate: report it as found
-            small = l if a.startswith("hang") else self.runner.shrink(l, profile)
+            # a hang costs a full timeout per candidate: report it as found; same once the budget is used up, and for big crashing cases
+            costly = a.startswith("hang") or time.time() > t_stop or (a.startswith("crash") and len(l) > 20000 and len(seen) >= 1)
+            small = l if costly else self.runner.shrink(l, profile)
             if small in seen: continue
             seen.add(small)
-            if a.startswith("hang"):
+            if costly:
                 sa, sm = a, m
             else:
                 sa = self.runner.impl([small], profile, per_case_timeout=20)[0]; sm = self.runner.model([small])[0]
@@ -351,7 +362,10 @@ def explore(pid, tier, seed, ex):
         ex.compare(corpus, None, None if pid in ("C01",) else None, "corpus")
         ex.compare(corpus, rel, None, "corpus")
 
+    seen_for_boundary = []
+
     def both(lines, domain, label):
+        seen_for_boundary.extend(lines[:: max(1, len(lines) // 400)])
         ex.compare(lines, None, domain, label)
         ex.compare(lines if tier == "thorough" else sample_third(lines), rel, domain, label + "/release")
         if tier == "thorough":
@@ -416,6 +430,19 @@ def explore(pid, tier, seed, ex):
                 ex.violate("oracle: {op: x} differs from {op: [x]}", c[3], a, b)
             elif not same(a, m):
                 ex.violate("impl-vs-model on unbracketed operand", c[3], a, m)
+        longs = []
+        for pad in range(4):
+            for unit, cntu in (("é", 200), ("日", 100), ("😀", 80), ("é", 130), ("é", 123)):
+                ls_ = "a" * pad + unit * cntu
+                for k in gen.ALLOPS:
+                    for n_ in range(0, 5):
+                        if not gen.DOC[k](n_): longs.append(gen.app({k: [ls_] * n_}, {"a": 1}))
+                    if not gen.DOC[k](1): longs += [gen.app({k: ls_}, None), gen.app({k: {"name": ls_}}, None), gen.app({k: {ls_: 1, "b": 2}}, None)]
+        rl = R.impl(longs); ml = R.model(longs)
+        ex.account(longs, rl)
+        for l, a, m in zip(longs, rl, ml):
+            if jl.is_bad(a): ex.violate("an undocumented operand count / unbracketed operand crashed instead of being rejected", l, a, "err")
+            elif not same(a, m): ex.violate("impl-vs-model on arity stream (long operands)", l, a, m)
         rr = R.impl(sample_third(lines, 2), rel); rd = [r for i, r in enumerate(ri) if i % 2 == 0]
         for l, a, b in zip(sample_third(lines, 2), rr, rd):
             if not same(a, b): ex.violate("release build differs from debug build on arity", l, a, b)
@@ -490,6 +517,9 @@ def explore(pid, tier, seed, ex):
     elif pid == "C19":
         import wrappers
         wrappers.run_c19(ex, g, tier)
+    if pid not in ("C17", "C18", "C19") and seen_for_boundary:
+        import wrappers
+        wrappers.boundary_sample(ex, seen_for_boundary, 60 if tier == "quick" else 600)
 
 
 def neutralise(v):
@@ -617,6 +647,11 @@ def run_c04(ex, g, tier, both):
         ops = [g.rule(2, None, paths) for _ in range(n)]
         dd = g.data_for(paths, opshaped=0.6)
         subs.append((k, ops, dd))
+    r40 = list(range(40))
+    for k, ops in (("in", [7.0, r40]), ("in", [-0.0, r40]), ("in", [1e1, r40]), ("in", [{"var": "x"}, r40]), ("in", ["7", [str(i) for i in r40]]), ("in", [7, [float(i) for i in r40]]),
+                   ("merge", [r40, [1.0]]), ("cat", [r40]), ("==", [r40, ",".join(str(i) for i in r40)]), ("max", r40), ("+", r40), ("in", [None, r40 + [None]]), ("in", [[1.0], [[1]] * 40]),
+                   ("===", [{"var": ""}, {"var": ""}]), ("in", [{"var": "x"}, [{"var": "x"}] * 3]), ("<", [1, {"var": "x"}, 9]), ("substr", ["x" * 40, {"var": "x"}])):
+        subs.append((k, ops, {"x": 7.0}))
     first = []
     for k, ops, dd in subs:
         first.append(gen.app({k: ops}, dd))
@@ -700,8 +735,13 @@ def run_c17(ex, g, tier):
     for v in gen.CORPUS[:120]:
         logs.append(gen.app({"log": [{"var": "v"}]}, {"v": v}))
         logs.append(gen.app({"cat": [{"log": {"var": "v"}}, {"log": {"var": "v"}}]}, {"v": v}))
-    ex.compare(logs, None, {"C17"}, "log")
-    ex.compare(logs, "release", {"C17"}, "log/release")
+    for pred in ({"log": "tick"}, {"log": 1}, {"log": [1, 2]}, {"!": [{"log": "t"}]}, {"log": {"cat": ["a", "b"]}}, {"cat": [{"log": "a"}, {"log": "a"}]}):
+        for q in ("map", "filter", "all", "some", "none"):
+            logs.append(gen.app({q: [[1, 2, 3], pred]}, None)); logs.append(gen.app({q: [{"var": ""}, pred]}, [0, 1, 2]))
+        logs += [gen.app({"reduce": [[1, 2, 3], pred, 0]}, None), gen.app({"if": [pred, pred, pred]}, None), gen.app({"and": [pred, pred, pred]}, None), gen.app({"or": [{"!": [pred]}, {"!": [pred]}]}, None),
+                 gen.app({"cat": [pred, pred]}, None), gen.app({"map": [[1, 2], {"map": [[1, 2], pred]}]}, None)]
+    ex.compare(logs, None, None, "log")                    # any disagreement in this stream is about what gets written by `log`
+    ex.compare(logs, "release", None, "log/release")
     # (c) concurrent stress: 16 threads, shared Arc<Value> rules and data
     conc = [l for l in base if "s108,111,103" not in l]   # rules without `log` (its lines would interleave)
     rounds = 3 if tier == "quick" else 40
